@@ -266,10 +266,56 @@ def generate(repo):
     A('\n/-- `Spectrum.to(<flux unit>)`, per sample: km = `self._waveunit.to(\'meter\')`, back = `Meter().to(self.waveunit)` -/')
     A(f'def toStepFlux (f g : FUnit) (w v km back H C : Rat) : Rat :=\n  let wave := {wv}\n  let value := {vv}\n  (fluxTo f g value wave H C) / back')
     tr = _FnTr(src, cls_of, wunits, funits, aliases)
+    tr0 = tr
     A('\n/-- translated from `planck_radiance` (its own source lines; `np.exp` -> `expf`, `np.pi` -> `pi`, unit calls -> the tables above) -/')
     A(tr.fn(funcs['planck_radiance'], 'planckRadiance'))
     A('\n/-- translated from `planck_exitance` (its own source lines) -/')
     A(tr.fn(funcs['planck_exitance'], 'planckExitance'))
+    # ---- vegaflux: the zero-point table and the conversion steps
+    vf = funcs.get('vegaflux')
+    if vf is None: raise Refuse('vegaflux not found')
+    vbody = [st for st in vf.body if not (isinstance(st, ast.Expr) and isinstance(st.value, ast.Constant))]
+    if not (isinstance(vbody[0], ast.Assign) and ast.unparse(vbody[0].targets[0]) == 'vega' and isinstance(vbody[0].value, ast.Dict)): raise Refuse('vegaflux: table')
+    table = {}
+    for k_, v_ in zip(vbody[0].value.keys, vbody[0].value.values):
+        if not (isinstance(k_, ast.Constant) and isinstance(v_, ast.Dict)): raise Refuse('vegaflux: table entry')
+        ent = {ast.literal_eval(a): b for a, b in zip(v_.keys, v_.values)}
+        if set(ent) != {'wave', 'flux'} or not all(isinstance(b, ast.Constant) for b in ent.values()): raise Refuse('vegaflux: table entry fields')
+        table[k_.value] = (_lit(src, ent['wave']), _lit(src, ent['flux']))
+    rest = vbody[1:]
+    expect_head = ['band = band.upper()', None, "wave = vega[band]['wave']", "flux = vega[band]['flux']"]
+    for st, ex in zip(rest[:4], expect_head):
+        if ex is not None and ast.unparse(st) != ex: raise Refuse(f'vegaflux: statement {ast.unparse(st)[:50]}')
+    if not (isinstance(rest[1], ast.If) and ast.unparse(rest[1].test) == 'band not in vega' and isinstance(rest[1].body[0], ast.Raise)): raise Refuse('vegaflux: unknown-band guard')
+    env = {'wave': 'wave_0', 'flux': 'flux_0', 'H': 'H', 'C': 'C'}
+    lines = ['  let wave_0 : K := vegaWave band', '  let flux_0 : K := vegaJy band']
+    k = 0
+    i = 4
+    while i < len(rest) and isinstance(rest[i], ast.Assign):
+        st = rest[i]; k += 1
+        nm = ast.unparse(st.targets[0])
+        if nm not in ('flux', 'wave'): raise Refuse(f'vegaflux: assignment to {nm}')
+        lines.append(f'  let {nm}_{k} : K := {tr0.expr(st.value, env)}')
+        env = dict(env, **{nm: f'{nm}_{k}'})
+        i += 1
+    sp = rest[i]
+    if not (isinstance(sp, ast.If) and ast.unparse(sp.test) == "valueunit == 'photlam'" and len(sp.body) == 1 and len(sp.orelse) == 1
+            and all(isinstance(x, ast.Assign) and ast.unparse(x.targets[0]) == 'flux' for x in (sp.body[0], sp.orelse[0]))): raise Refuse('vegaflux: valueunit split')
+    lines.append(f'  let flux_f : K := match vu with\n    | .photlam => {tr0.expr(sp.body[0].value, env)}\n    | _ => {tr0.expr(sp.orelse[0].value, env)}')
+    tail = rest[i + 1:]
+    if len(tail) != 2 or ast.unparse(tail[1]) != 'return (flux, wave)' or ast.unparse(tail[0].targets[0]) != 'wave': raise Refuse('vegaflux: tail')
+    lines.append(f'  let wave_f : K := {tr0.expr(tail[0].value, env)}')
+    lines.append('  (flux_f, wave_f)')
+    bands = list(table)
+    A('\n/-- observing bands of `vegaflux` -/')
+    A('inductive Band where\n' + '\n'.join(f'  | {b}' for b in bands) + '\nderiving DecidableEq, Repr')
+    A('def Band.all : List Band := [' + ', '.join('.' + b for b in bands) + ']')
+    A('def Band.ofName? : String → Option Band\n' + '\n'.join(f'  | "{b}" => some .{b}' for b in bands) + '\n  | _ => none')
+    A('/-- central wavelength (m) and zero-point flux (Jy) of Vega per band: the literals of the source table -/')
+    A('def vegaWave {K : Type} [NatCast K] [Div K] : Band → K\n' + '\n'.join(f'  | .{b} => {lean_q(table[b][0])}' for b in bands))
+    A('def vegaJy {K : Type} [NatCast K] [Div K] : Band → K\n' + '\n'.join(f'  | .{b} => {lean_q(table[b][1])}' for b in bands))
+    A('/-- `vegaflux(band, waveunit, valueunit)` = (flux, wavelength): its own source lines -/')
+    A('def vegaflux {K : Type} [NatCast K] [Mul K] [Div K] [Add K] [Sub K] (H C : K) (band : Band) (wu : WUnit) (vu : FUnit) : K × K :=\n' + '\n'.join(lines))
     notes = {'wave': {f'{a}->{b}': str(q) for (a, b), q in wave.items()}, 'aliases': aliases,
              'constants': {k: str(v) for k, v in consts.items()}}
     return '\n'.join(L) + '\n', notes
